@@ -460,7 +460,7 @@ def _paste_inv1(ctx):
         ("len", pplen(ctx.st, q) == nb + it - s),
         ("within", z3.Implies(it - s > 0, nb + it - s <= M)),
         ("back_part", forall_range(0, nb, lambda j: ppat(ctx.st, q, j) == ppat(ctx.old, b, nb - 1 - j))),
-        ("forw_part", forall_range(0, it - s, lambda j: ppat(ctx.st, q, nb + j) == ppat(ctx.old, f, j + s))),
+        ("forw_part", forall_range(nb, nb + it - s, lambda j: ppat(ctx.st, q, j) == ppat(ctx.old, f, j - nb + s), pattern=lambda j: ppat(ctx.st, q, j))),
         ("only_q_pp", _pp_only_changed_at(ctx, q, ctx.pre)),
     ]
 
@@ -478,8 +478,8 @@ def _paste_post(ctx):
     return [
         ("fresh_path", q.term == a0),
         ("length_is_sum_minus_shared_truncated", pplen(ctx.st, q) == L),
-        ("back_reversed_first", forall_range(0, z3.If(nb < L, nb, L), lambda j: ppat(ctx.st, q, j) == ppat(ctx.old, b, nb - 1 - j))),
-        ("then_forward_in_order", forall_range(0, L - nb, lambda j: ppat(ctx.st, q, nb + j) == ppat(ctx.old, f, j + s))),
+        ("back_reversed_first", forall_range(0, z3.If(nb < L, nb, L), lambda j: ppat(ctx.st, q, j) == ppat(ctx.old, b, nb - 1 - j), pattern=lambda j: ppat(ctx.st, q, j))),
+        ("then_forward_in_order", forall_range(nb, L, lambda j: ppat(ctx.st, q, j) == ppat(ctx.old, f, j - nb + s), pattern=lambda j: ppat(ctx.st, q, j))),
         ("begins_with_last_backward_frame", z3.Implies(z3.And(L >= 1, nb >= 1), ppat(ctx.st, q, 0) == ppat(ctx.old, b, nb - 1))),
         ("time_origin", fld(ctx.st, "Path.time_origin", q.term) == fld(ctx.old, "Path.time_origin", b.term) - nb + 1),
         ("maxlen", fld(ctx.st, "Path.maxlen", q.term) == M),
